@@ -96,7 +96,7 @@ def _build(cfg):
     in_sig, out_sig = SIGS[cfg["sig"]]
     in_sig = [(tuple(q), c) for q, c in in_sig]
     out_sig = [(tuple(q), c) for q, c in out_sig]
-    key = jax.random.PRNGKey(2)
+    key = jax.random.PRNGKey(cfg.get("seed", 2))
     equiv = cfg.get("equiv", False)
     bank = up = None
     if equiv:
